@@ -1,3 +1,4 @@
+import Pocket.Lemmas.FromSourceConsts
 import Pocket.Lemmas.StoreRead
 import Pocket.Lemmas.Layout
 import Pocket.Lemmas.EventMap
@@ -117,5 +118,13 @@ example :
     let s := run {} [.store e1, .store e1, .store e2]
     getByOffset s 8 = some e1 ∧ getByOffset s 168 = some e2 ∧ s.log.length = 2 := by
   decide +kernel
+
+/-! ### tie to the source text: what /repo says now (translated on every run by `lib/srcfacts.py`) is what the model says -/
+
+/-- the growth chunk of both build configurations (`EVENT_MAP_CHUNK`, debug and release) satisfies what the event-map
+theorems assume of it: a multiple of 8, at least the header -/
+theorem map_chunks_from_source :
+    ∀ c ∈ Src.c_event_store_EVENT_MAP_CHUNK_debug ++ Src.c_event_store_EVENT_MAP_CHUNK_release, c % 8 = 0 ∧ 8 ≤ c :=
+  Pocket.map_chunks_from_source
 
 end Pocket.C04
